@@ -281,8 +281,8 @@ pub fn global_parse_int(
         .map(|v| crate::value::to_int32(v.to_number()))
         .unwrap_or(0);
 
-    // Trim whitespace
-    let s = string.trim();
+    // Trim whitespace (the JS notion: includes U+FEFF and the Unicode space separators, not U+0085)
+    let s = crate::value::trim_js_whitespace(&string);
 
     if s.is_empty() {
         return Ok(Guarded::unguarded(JsValue::Number(f64::NAN)));
@@ -352,7 +352,7 @@ pub fn global_parse_float(
         None => interp.intern(""),
     };
     let string = string.as_str().to_string();
-    let s = string.trim();
+    let s = crate::value::trim_js_whitespace(&string);
 
     if s.is_empty() {
         return Ok(Guarded::unguarded(JsValue::Number(f64::NAN)));
